@@ -247,13 +247,19 @@ func runPass(a []string) string {
 		for _, e := range sc.resp.hdrs {
 			w.Header()[textproto.CanonicalMIMEHeaderKey(e[0])] = append(w.Header()[textproto.CanonicalMIMEHeaderKey(e[0])], e[1])
 		}
-		if len(sc.resp.trailers) > 0 {
+		// how the backend announces its trailers: all of them up front, only the first name (the rest arrive
+		// unannounced), or none
+		announce := (sc.resp.bodySeed / 2) % 3
+		announced := map[string]bool{}
+		if len(sc.resp.trailers) > 0 && announce != 2 {
 			var names []string
-			seen := map[string]bool{}
 			for _, e := range sc.resp.trailers {
-				if k := textproto.CanonicalMIMEHeaderKey(e[0]); !seen[k] {
-					seen[k] = true
+				if k := textproto.CanonicalMIMEHeaderKey(e[0]); !announced[k] {
+					announced[k] = true
 					names = append(names, k)
+					if announce == 1 {
+						break
+					}
 				}
 			}
 			w.Header()["Trailer"] = []string{strings.Join(names, ", ")}
@@ -272,8 +278,15 @@ func runPass(a []string) string {
 				fl.Flush()
 			}
 		}
+		if len(sc.resp.trailers) > 0 && announce != 0 && fl != nil {
+			// net/http's own HTTP/1.1 server can only send unannounced trailers on a response that is already chunked
+			fl.Flush()
+		}
 		for _, e := range sc.resp.trailers {
 			k := textproto.CanonicalMIMEHeaderKey(e[0])
+			if !announced[k] {
+				k = http.TrailerPrefix + k
+			}
 			w.Header()[k] = append(w.Header()[k], e[1])
 		}
 	}
@@ -452,9 +465,9 @@ func genPassHalf(r *rng, names []string, hop [][2]string, maxBody int) passHalf 
 	}
 	h.flag = r.chance(1, 2)
 	if r.chance(1, 4) {
-		k := 1 + r.intn(2)
+		k := 1 + r.intn(3)
 		for i := 0; i < k; i++ {
-			h.trailers = append(h.trailers, [2]string{[]string{"X-Trailer-A", "X-Checksum", "Server-Timing"}[r.intn(3)], "t" + strconv.Itoa(r.intn(1000))})
+			h.trailers = append(h.trailers, [2]string{[]string{"X-Trailer-A", "X-Checksum", "Server-Timing", "X-Count"}[r.intn(4)], "t" + strconv.Itoa(r.intn(1000))})
 		}
 	}
 	return h
@@ -511,7 +524,7 @@ func init() {
 				if soak {
 					rs.bodyLen, rs.trailers = r.intn(300), nil
 				}
-				status := []int{200, 200, 200, 201, 202, 204, 206, 301, 302, 304, 400, 401, 403, 404, 409, 418, 500, 502, 503}[r.intn(19)]
+				status := []int{200, 200, 200, 201, 202, 204, 206, 226, 299, 301, 302, 304, 400, 401, 403, 404, 409, 418, 451, 499, 500, 502, 503, 511, 599, 600, 799, 999}[r.intn(28)]
 				if status == 204 || status == 304 || method == "HEAD" {
 					rs.bodyLen = 0
 					rs.trailers = nil
